@@ -23,6 +23,8 @@ var verifMap struct {
 	k1, v1 int64
 	k2, v2 int64
 	diag   int64
+	sitePC uintptr
+	siteV  int64
 	bs     [verifMapMax]uint8
 	pcs    [verifMapMax]uintptr
 }
@@ -32,6 +34,9 @@ func verifMapStart(h *hmap, pc uintptr) uintptr {
 	if k < verifMapMax {
 		verifMap.bs[k] = h.B
 		verifMap.pcs[k] = pc
+	}
+	if verifMap.sitePC != 0 && pc == verifMap.sitePC {
+		return uintptr(verifMap.siteV)
 	}
 	switch k {
 	case verifMap.k1:
@@ -43,9 +48,11 @@ func verifMapStart(h *hmap, pc uintptr) uintptr {
 }
 
 //go:linkname verifMapSet
-// verifMapSet switches the hook on: iteration number k1 (k2) starts at v1 (v2), all others at diag.
-func verifMapSet(k1, v1, k2, v2, diag int64) {
+// verifMapSet switches the hook on: iteration number k1 (k2) starts at v1 (v2), every iteration
+// called from sitePC at siteV, all others at diag.
+func verifMapSet(k1, v1, k2, v2, diag int64, sitePC uintptr, siteV int64) {
 	verifMap.k1, verifMap.v1, verifMap.k2, verifMap.v2, verifMap.diag = k1, v1, k2, v2, diag
+	verifMap.sitePC, verifMap.siteV = sitePC, siteV
 	verifMap.count = 0
 	verifMap.on = true
 }
